@@ -17,6 +17,8 @@ type Loop struct {
 	labelStart    string
 	labelBreak    string
 	labelContinue string
+	// Number of enclosing `try` blocks (of the current function) at the loop's entry.
+	tryDepth uint
 }
 
 type Function struct {
@@ -40,6 +42,8 @@ type Compiler struct {
 	currScope       *map[string]string
 	currModule      string
 	lambdaCount     uint
+	// Number of `try` blocks of the current function which enclose the code being compiled.
+	tryDepth uint
 	// Program source: required for invocations of the evaluator.
 	analyzedSource   map[string]ast.AnalyzedProgram
 	entryPointModule string
